@@ -70,7 +70,7 @@ func genHistory(t *rapid.T, allowEmpty bool) ListHistory {
 		return h
 	}
 	h.Init = genVals(t, 0, 5, 1)
-	nadd := []int{0, 1, 2, 3, 4, 5, 7, 8, 9, 15, 16, 17, 31, 33, 40, 63, 64, 65, 100, 129}[drawIdx(t, 20, "nadd")]
+	nadd := []int{0, 1, 2, 3, 4, 5, 7, 8, 9, 15, 16, 17, 31, 33, 40, 63, 64, 65, 100, 129, 256, 257}[drawIdx(t, 22, "nadd")]
 	for i := 0; i < nadd; i++ {
 		h.Adds = append(h.Adds, genValSpec(t, 1))
 	}
@@ -401,12 +401,19 @@ func deriveObject(d Deriv, r, a at.Object) any {
 	case "Pluck":
 		ks := sortedKeys(r)
 		var sel []string
-		for i, k := range ks {
-			if (d.A>>uint(i))&1 == 1 {
-				sel = append(sel, k)
+		for i := len(ks) - 1; i >= 0; i-- { // descending order: an implementation that sorts its argument shows
+			if (d.A>>uint(i))&1 == 1 || d.B%3 == 0 {
+				sel = append(sel, ks[i])
 			}
 		}
-		return r.Pluck(sel...)
+		given := append([]string{}, sel...)
+		res := r.Pluck(sel...)
+		for i := range given {
+			if sel[i] != given[i] {
+				return argumentChanged{fmt.Sprintf("Pluck changed the caller's keys slice: %q -> %q", given, sel)}
+			}
+		}
+		return res
 	case "Keys":
 		return r.Keys()
 	case "Values":
@@ -442,6 +449,9 @@ func deriveObject(d Deriv, r, a at.Object) any {
 	}
 	return nil
 }
+
+// argumentChanged is returned by a derivation helper when the call modified a Go value passed to it.
+type argumentChanged struct{ what string }
 
 func listInSortDomain(l at.List) bool {
 	if l.Count() == 0 {
@@ -598,6 +608,9 @@ func CheckC09(c *C09Case, st *Stats) error {
 		})
 		if panicked {
 			return errf("%s panicked: %v", d.Name, p)
+		}
+		if ac, ok := res.(argumentChanged); ok {
+			return errf("%s", ac.what)
 		}
 		if !slotsEqual(beforeR, slots(r)) {
 			return errf("%s changed its receiver: %s -> %s", d.Name, showSlots(beforeR), showSlots(slots(r)))
